@@ -219,7 +219,10 @@ def run(ctx):
     for depth in (12, 26, 40):
         for shape in ('{"Set":[X],"zz":[]}', '{"zz":[],"Set":[X]}', '{"!":{"arg":X},"zz":[]}', '{"Record":{"a":X},"zz":[]}', '{"neg":{"arg":X},"decimal":[]}',
                       '{"is":{"left":X,"entity_type":"T"},"zz":[]}', '{"if-then-else":{"if":X,"then":{"Value":1},"else":{"Value":1}},"zz":[]}',
-                      '{".":{"left":X,"attr":"a"},"zz":[]}', '{"decimal":[X],"zz":[]}', '{"set":[X],"ZZ":[]}', '{"Value":{"a":X},"zz":[]}'):
+                      '{".":{"left":X,"attr":"a"},"zz":[]}', '{"decimal":[X],"zz":[]}', '{"set":[X],"ZZ":[]}', '{"Value":{"a":X},"zz":[]}',
+                      # keys that differ from a known key only by a character with unusual case folding (dotted / dotless i, Kelvin sign, long s)
+                      '{"Set":[X],"\u0130n":[]}', '{"Set":[X],"\u0131s":[]}', '{"Set":[X],"li\u212ae":[]}', '{"\u017fet":[X],"zz":[]}', '{"Set":[X],"\u0130sEmpty":[]}',
+                      '{"Set":[X],"ha\u017f":[]}', '{"Set":[X],"conta\u0130ns":[]}', '{"SET":[X],"IN":[]}', '{"Set":[X],"\u212a":[]}'):
             add('policy-json', pj % nest(shape, '{"Value":1}', depth))
         for shape in ('{"a":X,"__extn":1}', '{"__extn":{"fn":"ip","arg":"1.1.1.1"},"a":X}', '{"__entity":{"type":"A","id":"a"},"a":X}', '{"type":"A","id":"a","x":X}'):
             add('value-json', nest(shape, '1', depth))
